@@ -323,6 +323,11 @@ def ref_apply(P, f, st, opts):
                 info['exact'] = False
             if (fn == 'LINEAR' and w <= 1) or w <= 0:
                 return ('skip', 'degenerate window width')
+            if div != 0:
+                # float32 outputs are computed in float32: the subtraction stored - window start cancels, its rounding
+                # error is scaled by range / width.  Slack for that (absolute), used for float32 comparisons only.
+                mag = max(max(abs(v) for v in vals), max(abs(x) for x in xs) / abs(slope))
+                info['f32_slack'] = float(2.0 ** -21 * abs((hi - lo) / div) * (mag + abs((c - icpt) / slope) + abs(w / slope) + 1))
             out = [window_value(fn, c, w, x, lo, hi) for x in xs]
         if st['invert']:
             info['kind'].append('invert')
@@ -408,7 +413,8 @@ def compare_values(got, want, info, dtype):
             tol = 2.0 ** -40 if np.dtype(dtype).itemsize >= 8 else 2.0 ** -18
             if isinstance(w, float):
                 tol = max(tol, 1e-12)
-            ok = abs(g - wf) <= tol * (1 + abs(wf)) or (math.isnan(g) and math.isnan(wf))
+            slack = info.get('f32_slack', 0.0) if np.dtype(dtype).itemsize < 8 else 0.0
+            ok = abs(g - wf) <= tol * (1 + abs(wf)) + slack or (math.isnan(g) and math.isnan(wf))
         else:
             ok = (not math.isnan(g)) and (not math.isinf(g)) and Fraction(g) == w
         if not ok:
@@ -464,7 +470,7 @@ def dyadic(r, lo, hi, den):
 
 SLOPES = [Fraction(1)] * 4 + [Fraction(2), Fraction(4), Fraction(1, 2), Fraction(1, 4), Fraction(3), Fraction(5),
                               Fraction(3, 2), Fraction(3, 4), Fraction(-1), Fraction(-2), Fraction(-1, 2), Fraction(-3)]
-INT_SLOPES = [Fraction(1)] * 3 + [Fraction(2), Fraction(3), Fraction(4), Fraction(5), Fraction(7)]
+INT_SLOPES = [Fraction(1)] * 3 + [Fraction(2), Fraction(3), Fraction(4), Fraction(5), Fraction(7), Fraction(-1), Fraction(-2), Fraction(-3), Fraction(3, 2)]
 UNITS = [['mm', 'UCUM', 'millimeter'], ['[hnsf\'U]', 'UCUM', 'Hounsfield unit'], ['1', 'UCUM', 'no units'],
          ['ml/s', 'UCUM', 'ml/s']]
 EXPL = ['SOFT', 'BONE', 'LUNG', 'BRAIN']
@@ -776,7 +782,7 @@ def check_call(ctx, case, P, f, flags, opts, res, site, hist=True):
 
 
 def stream_pipeline(ctx, reqs, pending):
-    n_img = ctx.n(350, 20000)
+    n_img = ctx.n(1200, 20000)
     for idx in range(n_img):
         r = ctx.rng('pipe', idx)
         P, _ = gen_pipeline_case(r, idx)
@@ -831,7 +837,8 @@ def settle(ctx, reqs, pending):
     for item, ans in zip(pending, answers):
         if item[0] == 'pipeline':
             _, case, res, ref, dtype = item
-            compare_model(ctx, case, ans, res, ref, ref[0] == 'ok' and ref[2]['exact'], dtype)
+            compare_model(ctx, case, ans, res, ref, ref[0] == 'ok' and ref[2]['exact'], dtype,
+                          ref[2].get('f32_slack', 0.0) if ref[0] == 'ok' else 0.0)
         else:
             case, impl = item
             if 'proto_err' in ans:
@@ -955,7 +962,7 @@ def stream_flags(ctx, reqs, pending):
     tuples = list(all_flag_tuples())
     full = ctx.tier == 'thorough' and not ctx.search_mode
     r = ctx.rng('flags', 0)
-    budget = ctx.n(2500, len(rows) * len(tuples))
+    budget = ctx.n(6000, len(rows) * len(tuples))
     per_row = len(tuples) if full else max(1, budget // len(rows))
     for ct, pres in rows:
         P = flag_image(ct, pres)
@@ -1059,7 +1066,7 @@ def out_value(o):
     return off + k / (1.0 + e)
 
 
-def compare_model(ctx, case, ans, res, ref, info_exact, dtype):
+def compare_model(ctx, case, ans, res, ref, info_exact, dtype, slack=0.0):
     """model (`pipeline` answer) against implementation result `res` and against the oracle's reference `ref`"""
     if 'proto_err' in ans:
         ctx.disagree('L0', case, res[:2], ans, 'model protocol error')
@@ -1105,7 +1112,7 @@ def compare_model(ctx, case, ans, res, ref, info_exact, dtype):
             tol = 2.0 ** -40 if np.dtype(dtype).itemsize >= 8 else 2.0 ** -18
             if not isinstance(v, Fraction):
                 tol = max(tol, 1e-12)
-            same = abs(g - float(v)) <= tol * (1 + abs(float(v)))
+            same = abs(g - float(v)) <= tol * (1 + abs(float(v))) + (slack if np.dtype(dtype).itemsize < 8 else 0.0)
         if not same:
             ctx.disagree('L0', case, got, [str(out_value(o['ok'])) for o in folded], 'folded model differs from the implementation')
             return
@@ -1122,7 +1129,7 @@ def stream_lut(ctx, reqs, pending):
     from pydicom.sequence import Sequence
     from gen.images import base_dataset, to_bytes, MF_SC_WORD
     from pydicom.uid import ExplicitVRLittleEndian
-    n_cases = ctx.n(120, 4000)
+    n_cases = ctx.n(300, 4000)
     big_every = 40 if ctx.tier == 'quick' else 25
     for idx in range(n_cases):
         r = ctx.rng('lut', idx)
@@ -1251,7 +1258,7 @@ def stream_palette(ctx, reqs, pending):
     import highdicom as hd
     from pydicom.pixels.processing import apply_color_lut
     from gen.pixeltransforms import make_image
-    for idx in range(ctx.n(60, 1500)):
+    for idx in range(ctx.n(120, 1500)):
         r = ctx.rng('pal', idx)
         nr = ctx.np_rng('pal', idx)
         bits = r.choice([8, 16])
@@ -1479,7 +1486,7 @@ def stream_objects(ctx, reqs, pending):
     from pydicom.pixels.processing import apply_modality_lut, apply_windowing
     from pydicom.sr.coding import Code
     from gen.pixeltransforms import fl, lut_item
-    for idx in range(ctx.n(150, 8000)):
+    for idx in range(ctx.n(600, 8000)):
         r = ctx.rng('obj', idx)
         kind = r.choice(['voi-window', 'voi-window', 'voi-lut', 'mod-rescale', 'mod-lut', 'rwvm-linear', 'rwvm-lut'])
         signed = r.random() < 0.3
@@ -1619,7 +1626,7 @@ def stream_paths(ctx, reqs, pending):
     import highdicom as hd
     from gen.pixeltransforms import add_transforms
     from gen.sources import ct_series, enhanced_multiframe, slide_image
-    for idx in range(ctx.n(24, 900)):
+    for idx in range(ctx.n(60, 900)):
         r = ctx.rng('paths', idx)
         nr = ctx.np_rng('paths', idx)
         path = ['volume', 'tpm', 'series'][idx % 3]
@@ -1760,3 +1767,42 @@ def stream_dtype(ctx, reqs, pending):
                 ctx.fail({'stream': 'dtype', 'slope': fs(m), 'intercept': fs(b), 'out': out, 'in': inn, 'range': rng_},
                          {'why': 'integer output type accepted although it cannot hold the rescaled range', 'ends': [str(e) for e in ends]},
                          site='_check_rescale_dtype')
+
+
+def shrink(ctx, failure):
+    """pipeline failures: keep only the failing frame (per-frame parameters cut accordingly), then a single pixel"""
+    case = failure['case']
+    if case.get('stream') != 'pipe' or case.get('frame') == 'all':
+        return None
+    import copy
+    P, f = copy.deepcopy(case['P']), case['frame']
+    P['frames'] = [P['frames'][f]]
+    for key in ('rescale', 'window', 'rwvm'):
+        for e in P['T'].get(key) or []:
+            if e['place'] == 'perframe':
+                e['vals'] = [e['vals'][f]]
+    best = None
+
+    def fails(Q):
+        sub = type(ctx)(ctx.prop, ctx.tier, ctx.seed, 1, ctx.driver)
+        c = dict(case, P=Q, frame=0)
+        try:
+            im, _ = build(Q)
+            kw = dict(flag_kwargs(case['flags']), **opt_kwargs(case['opts']))
+            check_call(sub, c, Q, 0, case['flags'], case['opts'], call(im.get_frame, 1, **kw), 'get_frame', hist=False)
+        except Exception:  # noqa: BLE001
+            return None
+        return sub.failures[0] if sub.failures else None
+    got = fails(P)
+    if got is None:
+        return None
+    best = got
+    flat = np.asarray(P['frames'][0])
+    if flat.ndim == 2:
+        for v in flat.reshape(-1).tolist():
+            Q = dict(P, frames=[[[v]]])
+            g = fails(Q)
+            if g is not None:
+                best = g
+                break
+    return best
